@@ -300,7 +300,9 @@ View == <<height, votes, stake, ndet>>
 VS3 == <<"v1", "v2", "v3">>
 VS2 == <<"v1", "v2">>
 SVq == {<<1, 1, 2>>, <<1, 2, 2>>, <<1, 2, 3>>}
-SVt == SVq \cup {<<1, 1, 1>>, <<2, 1, 1>>, <<3, 3, 1>>, <<2, 3, 4>>, <<1, 1, 3>>}
+SVt == SVq \cup {<<1, 1, 1>>, <<3, 3, 1>>}
+\* larger set used for one hand-run (8 vectors, 2 outsiders: 103 744 states, 13 175 912 transitions)
+SVx == SVq \cup {<<1, 1, 1>>, <<2, 1, 1>>, <<3, 3, 1>>, <<2, 3, 4>>, <<1, 1, 3>>}
 SV2 == {<<1, 2>>}
 \* chain units (min stake of the mock spec is 1000 ... see harness/t/conflict)
 SVsim == {<<1000, 1000, 1000>>, <<1000, 1000, 2000>>, <<1000, 1001, 2000>>, <<1000, 2000, 3000>>,
